@@ -344,6 +344,12 @@ func c18CancelWithUnaryInFlight(r *Run) {
 		e := unary(key, payload)
 		return feed(e, payload) && answered(e, payload)
 	}
+	// the key whose envelope made the demultiplexer's very first connection comes and goes first: the
+	// others must not depend on it
+	if !call("firstborn", "firstborn-0") {
+		return
+	}
+	dm.Cancel("firstborn")
 	if !call("keeper", "keeper-0") {
 		return
 	}
@@ -439,5 +445,88 @@ func c18BlockedWriteThenCancel(r *Run) {
 		if !good {
 			return
 		}
+	}
+}
+
+// c18ConcurrentCancel: several goroutines cancel the SAME key at the same time (a read-error path and a
+// write-error path both tearing a client down; a retry). Cancel is safe to call like that: no call
+// panics, the key's connection fails its readers, and the next envelope of the key starts a new epoch.
+func c18ConcurrentCancel(r *Run) {
+	if !r.Want("concurrentcancel") {
+		return
+	}
+	shared := NewScript(0)
+	ctx, cancel := context.WithCancel(context.Background())
+	var mu sync.Mutex
+	var last goat.RpcReadWriter
+	announced := make(chan struct{}, 1)
+	dm := goat.NewDemux(ctx, shared, func(e *Rpc) string { return e.GetHeader().GetSource() }, func(rw goat.RpcReadWriter) {
+		mu.Lock()
+		last = rw
+		mu.Unlock()
+		announced <- struct{}{}
+	})
+	ran := make(chan struct{})
+	go func() { defer close(ran); dm.Run() }()
+	defer func() {
+		dm.Stop()
+		cancel()
+		shared.FailRead(errInjectedRead)
+		within(hangTimeout, func() { <-ran })
+	}()
+	rounds := r.Scale(1500, 20000)
+	panics := 0
+	var firstPanic string
+	for round := 0; round < rounds; round++ {
+		select {
+		case shared.In <- &Rpc{Id: uint64(round), Header: &goatorepo.RequestHeader{Source: "k"}}:
+		case <-time.After(hangTimeout):
+			r.Violate("concurrentcancel.stall", "ops", "the run loop stopped reading", round, goroutineDump(), nil)
+			return
+		}
+		select {
+		case <-announced:
+		case <-time.After(hangTimeout):
+			r.Violate("concurrentcancel.announce", "ops", "the key's next epoch was not announced", round, goroutineDump(), nil)
+			return
+		}
+		mu.Lock()
+		lc := last
+		mu.Unlock()
+		if _, err := lc.Read(ctx); err != nil {
+			r.Violate("concurrentcancel.read", "ops", "the envelope that created the connection was not handed over", round, err.Error(), nil)
+			return
+		}
+		var wg sync.WaitGroup
+		var pmu sync.Mutex
+		start := make(chan struct{})
+		for g := 0; g < 6; g++ {
+			wg.Add(1)
+			go func() {
+				defer wg.Done()
+				defer func() {
+					if x := recover(); x != nil {
+						pmu.Lock()
+						panics++
+						if firstPanic == "" {
+							firstPanic = fmt.Sprintf("round %d: Cancel(\"k\") panicked: %v", round, x)
+						}
+						pmu.Unlock()
+					}
+				}()
+				<-start
+				dm.Cancel("k")
+			}()
+		}
+		close(start)
+		wg.Wait()
+		if panics > 0 {
+			break
+		}
+	}
+	r.Eval("concurrentcancel", true)
+	r.CountN("c18.concurrentcancel.rounds", rounds)
+	if panics > 0 {
+		r.Violate("concurrentcancel.crash", "ops", "concurrent Cancel calls for one key made Cancel panic (in a caller that does not recover, the process is gone)", map[string]any{"goroutines_per_round": 6}, firstPanic, "no panic")
 	}
 }
